@@ -40,6 +40,13 @@ func ParseRemoteSource(given string) (RemoteSource, error) {
 	}
 
 	pkgRaw, subPathRaw := splitSubPath(expandedGiven)
+	if idx := strings.IndexByte(subPathRaw, '#'); idx > -1 {
+		// RemoteSource.String writes a URL fragment after the sub-path (and
+		// escapes any "#" inside the sub-path), so a literal "#" here starts
+		// the fragment of the package URL.
+		pkgRaw += subPathRaw[idx:]
+		subPathRaw = subPathRaw[:idx]
+	}
 	// RemoteSource.String writes the sub-path as part of the URL path, where
 	// it is percent-encoded, so we must decode it here for printing and
 	// parsing to agree with each other.
